@@ -27,12 +27,14 @@ LVL = {"catNames": False, "resultName": True}
 
 class FragmentGen(G.SheetGen):
     """Sheets inside the fragment of the universal theorem (Lean: CoreSheet.inFragment, Props/C02.C02_fragment):
-    action rows, wait_for_response / split_by_value / split_by_group rows, go_to and hard/loose exit rows; action rows are left
+    action rows, wait_for_response / split_by_value / split_by_group rows, start_new_flow / call_webhook /
+    transfer_airtime rows, go_to and hard/loose exit rows; action rows are left
     unconditionally, conditions leaving a wait row name no variable, no edge carries a category name, tests
     leaving one row are distinct.  Whether a sheet really is in the fragment is decided by the Lean predicate
     (driver op core.views), not by this generator."""
 
-    FRAG_ROUTERS = ["wait_for_response", "wait_for_response", "split_by_value", "split_by_group"]
+    FRAG_ROUTERS = ["wait_for_response", "wait_for_response", "split_by_value", "split_by_group",
+                    "start_new_flow", "call_webhook", "transfer_airtime"]
 
     def _edge_for(self, src):
         if src["type"] in G.ACTION_TYPES:
